@@ -106,6 +106,21 @@ def gen(ctx):
             for q in GRID_QUERIES:
                 cases.append({"kind": "evalgrid", "text": q, "doc": [{"a": x, "b": y}]})
     ctx.exhaustive_spaces.append("evaluation grid: %d function / operator / selector queries x every ordered pair of %d values of every JSON type" % (len(GRID_QUERIES), len(TYPEVALS)))
+    # complete grid: every operation kind x every kind of final token x array / object / scalar parents
+    toks = ["0", "1", "2", "3", "-", "-1", "01", "#0", "#1", "#2", "#9", "#a", "#", "~", "~0", "~2", "a", "", "1e0", "\u0661", "9" * 30]
+    gdocs = [{"a": [1, 2], "b": {"0": 1, "a": 2}, "c": 5, "d": "str", "e": []}, [[1, 2], {"0": 1}, 5]]
+    for gd in gdocs:
+        parents = ["/a", "/b", "/c", "/d", "/e", ""] if isinstance(gd, dict) else ["/0", "/1", "/2", ""]
+        for par in parents:
+            for t in toks:
+                path = par + "/" + t
+                src = "/a/0" if isinstance(gd, dict) else "/0/0"
+                for op in ({"op": "add", "path": path, "value": 9}, {"op": "addne", "path": path, "value": 9}, {"op": "addap", "path": path, "value": 9},
+                           {"op": "remove", "path": path}, {"op": "replace", "path": path, "value": 9}, {"op": "test", "path": path, "value": 1},
+                           {"op": "copy", "from": src, "path": path}, {"op": "move", "from": src, "path": path}, {"op": "copy", "from": path, "path": "/zz"},
+                           {"op": "move", "from": path, "path": "/zz"}):
+                    cases.append({"kind": "patch", "ops": [op], "doc": copy.deepcopy(gd)})
+    ctx.exhaustive_spaces.append("patch grid: 10 operation forms x %d final tokens x every parent kind (array, empty array, object, number, string, root)" % len(toks))
     for _ in range(n // 2):
         k = ctx.rng.random()
         if k < 0.1:
